@@ -1,20 +1,23 @@
-(* Correspondence driver: replays the operations the Go harness executed on the
-   real implementation through the extracted model and compares result classes
-   and canonical state dumps line by line (exactly; no tolerance).
-   Trace format (one record per line):
-     H <id>            start of a history (model state := init_state)
-     O <ints>          operation (IO.parse_op)
-     R <class> <cmp>   result class observed on the implementation; cmp=1: state lines follow
-     S <ints>          one line of the implementation's state dump (IO.print_state format)
-     E                 end of step: compare
-   Output: one line per history "OK <id> steps=<n>" or
-     "MISMATCH <id> step=<k> kind=<class|state|parse> ..." *)
+(* Correspondence driver.
+   usage: driver <trace> <property-number> <projection-tags, comma separated | all>
+
+   Replays the operations the Go harness executed on the real implementation
+   through the extracted model.  After every compared step:
+     - result classes must agree;
+     - the state lines whose tag belongs to the projection pi_X must agree exactly
+       (no tolerance); a difference only outside pi_X is counted, not reported;
+     - after any difference the model is re-synchronised to the observed state
+       (IO.parse_state), so that one divergence is reported once and the rest of
+       the history is still explored;
+     - the executable specification Spec.check_step of property X is evaluated on
+       the model's transition and on the implementation's transition.
+   Trace records:  H <id> | O <ints> | R <class> <cmp> | S <ints> | E | # text | M .. | A ..
+   Output: OK / MISMATCH / PROPFAIL impl|model <hist> step=<k> sig=<X>.<clause> / SUMMARY *)
 open Model
 
 let rec pos_of_int n = if n = 1 then XH else if n land 1 = 0 then XO (pos_of_int (n lsr 1)) else XI (pos_of_int (n lsr 1))
 let z_of_int n = if n = 0 then Z0 else if n > 0 then Zpos (pos_of_int n) else Zneg (pos_of_int (-n))
 let z10_9 = z_of_int 1000000000
-(* decimal string -> Z, nine digits at a time *)
 let z_of_string (s : string) : z =
   let neg = String.length s > 0 && s.[0] = '-' in
   let s = if neg then String.sub s 1 (String.length s - 1) else s in
@@ -30,6 +33,7 @@ let z_of_string (s : string) : z =
   if neg then Z.opp !acc else !acc
 
 let rec int_of_pos = function XH -> 1 | XO p -> 2 * int_of_pos p | XI p -> 2 * int_of_pos p + 1
+let int_of_z = function Z0 -> 0 | Zpos p -> int_of_pos p | Zneg p -> - (int_of_pos p)
 let rec string_of_z (x : z) : string =
   match x with
   | Z0 -> "0"
@@ -47,32 +51,41 @@ let rec string_of_z (x : z) : string =
     in go x ""
 
 let line_to_string l = String.concat " " (List.map string_of_z l)
-
 let split_ws s = List.filter (fun t -> t <> "") (String.split_on_char ' ' s)
+let tag_of (l : z list) = match l with t :: _ -> int_of_z t | [] -> -1
 
 let () =
   let file = Sys.argv.(1) in
-  let verbose = Array.length Sys.argv > 2 && Sys.argv.(2) = "-v" in
+  let prop = if Array.length Sys.argv > 2 then int_of_string Sys.argv.(2) else 0 in
+  let proj =
+    if Array.length Sys.argv > 3 && Sys.argv.(3) <> "all" then
+      Some (List.map int_of_string (List.filter (fun t -> t <> "") (String.split_on_char ',' Sys.argv.(3))))
+    else None in
+  let verbose = Array.length Sys.argv > 4 && Sys.argv.(4) = "-v" in
+  let in_proj t = match proj with None -> true | Some l -> List.mem t l in
+  let zprop = z_of_int prop in
   let ic = open_in file in
-  let st = ref init_state in
+  let st = ref init_state in          (* model state *)
+  let impl_prev = ref None in         (* last observed implementation state *)
+  let model_prev = ref init_state in  (* model state before the current op *)
+  let cur_op = ref None in
   let hid = ref "" in
   let stepno = ref 0 in
-  let dead = ref false in        (* history already diverged *)
+  let bad = ref false in
   let cur_class = ref Z0 in
   let impl_class = ref Z0 in
   let cmp = ref false in
   let lines = ref [] in
-  let nhist = ref 0 and nbad = ref 0 and nsteps = ref 0 and ncmp = ref 0 in
+  let nhist = ref 0 and nbad = ref 0 and nsteps = ref 0 and ncmp = ref 0 and noutside = ref 0
+  and nresync = ref 0 and nchecked = ref 0 in
   let finish () =
     if !hid <> "" then begin
       incr nhist;
-      if not !dead then Printf.printf "OK %s steps=%d\n" !hid !stepno
+      if !bad then incr nbad else Printf.printf "OK %s steps=%d\n" !hid !stepno
     end in
   let mismatch kind detail =
-    if not !dead then begin
-      dead := true; incr nbad;
-      Printf.printf "MISMATCH %s step=%d kind=%s %s\n" !hid !stepno kind detail
-    end in
+    bad := true;
+    Printf.printf "MISMATCH %s step=%d kind=%s %s\n" !hid !stepno kind detail in
   (try
     while true do
       let l = input_line ic in
@@ -81,46 +94,74 @@ let () =
         let tag = l.[0] in
         let rest = if n > 2 then String.sub l 2 (n - 2) else "" in
         match tag with
-        | 'H' -> finish (); hid := rest; st := init_state; stepno := 0; dead := false
+        | 'H' -> finish (); hid := rest; st := init_state; stepno := 0; bad := false; impl_prev := None
         | 'O' ->
           incr stepno; incr nsteps;
-          if not !dead then begin
-            let zs = List.map z_of_string (split_ws rest) in
-            match parse_op zs with
-            | None -> mismatch "parse" ("op: " ^ rest)
-            | Some op ->
-              let (s', c) = step !st op in
-              st := s'; cur_class := c;
-              if verbose then Printf.printf "  step %d op %s -> model class %s\n" !stepno rest (string_of_z c)
-          end
+          let zs = List.map z_of_string (split_ws rest) in
+          (match parse_op zs with
+           | None -> mismatch "parse" ("op: " ^ rest); cur_op := None
+           | Some op ->
+             model_prev := !st;
+             let (s', c) = step !st op in
+             st := s'; cur_class := c; cur_op := Some op;
+             if verbose then Printf.printf "  step %d op %s -> model class %s\n" !stepno rest (string_of_z c))
         | 'R' ->
           (match split_ws rest with
            | [c; m] -> impl_class := z_of_string c; cmp := (m = "1"); lines := []
            | _ -> mismatch "parse" ("R: " ^ rest))
-        | 'S' -> if not !dead && !cmp then lines := List.map z_of_string (split_ws rest) :: !lines
+        | 'S' -> if !cmp then lines := List.map z_of_string (split_ws rest) :: !lines
         | 'E' ->
-          if not !dead then begin
-            if !cur_class <> !impl_class then
-              mismatch "class" (Printf.sprintf "model=%s impl=%s" (string_of_z !cur_class) (string_of_z !impl_class))
-            else if !cmp then begin
-              incr ncmp;
-              let impl = List.rev !lines in
-              let model = print_state !st in
-              (* lines are compared as sets keyed by position after removing the common ones *)
-              let only_model = List.filter (fun x -> not (List.mem x impl)) model in
-              let only_impl = List.filter (fun x -> not (List.mem x model)) impl in
-              if only_model <> [] || only_impl <> [] || List.length model <> List.length impl then
-                mismatch "state" (Printf.sprintf "model-only={%s} impl-only={%s}"
-                  (String.concat " | " (List.map line_to_string only_model))
-                  (String.concat " | " (List.map line_to_string only_impl)))
-              else if model <> impl then
-                mismatch "state" "same lines in a different order"
-            end
-          end
+          (match !cur_op with
+           | None -> ()
+           | Some op ->
+             if !cur_class <> !impl_class then begin
+               mismatch "class" (Printf.sprintf "model=%s impl=%s" (string_of_z !cur_class) (string_of_z !impl_class))
+             end;
+             if !cmp then begin
+               incr ncmp;
+               let impl = List.rev !lines in
+               let model = print_state !st in
+               let differs = model <> impl in
+               if differs then begin
+                 let only_model = List.filter (fun x -> not (List.mem x impl)) model in
+                 let only_impl = List.filter (fun x -> not (List.mem x model)) impl in
+                 let inside = List.exists (fun x -> in_proj (tag_of x)) (only_model @ only_impl) in
+                 if inside || (only_model = [] && only_impl = []) then
+                   mismatch "state" (Printf.sprintf "model-only={%s} impl-only={%s}"
+                     (String.concat " | " (List.map line_to_string (List.filter (fun x -> in_proj (tag_of x)) only_model)))
+                     (String.concat " | " (List.map line_to_string (List.filter (fun x -> in_proj (tag_of x)) only_impl))))
+                 else incr noutside
+               end;
+               (* the implementation's own transition, for the executable specification *)
+               let impl_state = parse_state !st impl in
+               (match impl_state with
+                | None -> mismatch "parse" "state dump"
+                | Some is ->
+                  (match !impl_prev with
+                   | Some ip when prop > 0 ->
+                     incr nchecked;
+                     List.iter (fun code ->
+                       Printf.printf "PROPFAIL impl %s step=%d sig=C%02d.%s op=%s\n" !hid !stepno prop (string_of_z code)
+                         (match !cur_op with Some _ -> "" | None -> "")) (check_step zprop (with_ctx !model_prev ip) op !impl_class is);
+                     List.iter (fun code ->
+                       Printf.printf "PROPFAIL model %s step=%d sig=C%02d.%s\n" !hid !stepno prop (string_of_z code))
+                       (check_step zprop !model_prev op !cur_class !st)
+                   | _ -> ());
+                  impl_prev := Some is;
+                  if differs || !cur_class <> !impl_class then begin
+                    incr nresync;
+                    st := is
+                  end)
+             end else begin
+               (* environment bookkeeping steps without a dump: the specification sees the
+                  transition as part of the next compared step; keep impl_prev as is *)
+               ()
+             end)
         | _ -> ()
       end
     done
   with End_of_file -> ());
   finish ();
   close_in ic;
-  Printf.printf "SUMMARY histories=%d mismatching=%d steps=%d compared=%d\n" !nhist !nbad !nsteps !ncmp
+  Printf.printf "SUMMARY histories=%d mismatching=%d steps=%d compared=%d outside=%d resync=%d checked=%d\n"
+    !nhist !nbad !nsteps !ncmp !noutside !nresync !nchecked
